@@ -129,7 +129,7 @@ def cases(rng, n, only=None):
         add('PlanarSandwichHalf', 'exactpack.solvers.heat', 'PlanarSandwichHalf', dict(base, TB=g1, FT=g2), dict(rd, TB=TEMP, FT=dict(k=1, l=-1)), xs, th, {'temperature': TEMP}, tol=1e-9)
         kk, cp, rho, b = r4(rng, 0.5, 3), r4(rng, 0.5, 3), r4(rng, 0.5, 3), r4(rng, 0.5, 2)
         add('Hutchens1', 'exactpack.solvers.heat', 'Hutchens1', dict(k=kk, cp=cp, rho=rho, b=b, Tb=r4(rng, 2, 6), T0=r4(rng, 0, 1.5), Nsum=60),
-            {'k': dict(l=2, t=-1), 'b': LEN, 'Tb': TEMP, 'T0': TEMP}, sorted(r4(rng, 0.05, 1.0) * b for _ in range(6)), r4(rng, 0.02, 0.4) * b * b * rho * cp / kk, {'temperature': TEMP}, tol=1e-9)
+            {'k': dict(l=2, t=-1), 'b': LEN, 'Tb': TEMP, 'T0': TEMP}, [0.0] + sorted(r4(rng, 0.05, 1.0) * b for _ in range(6)), r4(rng, 0.02, 0.4) * b * b * rho * cp / kk, {'temperature': TEMP}, tol=1e-9)
         # general-EOS Riemann driver with different gammas on the two sides
         Pq = {'pl': r4(rng, 0.3, 3), 'pr': r4(rng, 0.3, 3), 'rl': r4(rng, 0.3, 3), 'rr': r4(rng, 0.3, 3), 'ul': r4(rng, -1, 1), 'ur': r4(rng, -1, 1),
               'gl': r4(rng, 1.2, 2.2), 'gr': r4(rng, 1.2, 2.2), 'xmin': -3.0, 'xd0': 0.2, 'xmax': 3.0, 't': 0.25}
